@@ -27,6 +27,11 @@ def world_by_name(name):
     except ImportError:
         pass
     try:
+        from worlds.quilt import QuiltWorld
+        table['quilt'] = QuiltWorld
+    except ImportError:
+        pass
+    try:
         from worlds.alias import AliasWorld
         table['alias'] = AliasWorld
     except ImportError:
@@ -41,6 +46,8 @@ CHECKS = {
     'C09': [{'world': 'grow', 'profile': 'C09', 'quick': (25000, 45), 'thorough': (3000000, 600)}],
     'C18': [{'world': 'pool', 'profile': 'C18', 'quick': (20000, 30), 'thorough': (1500000, 400)},
             {'world': 'pool', 'profile': 'C18T', 'quick': (6000, 30), 'thorough': (500000, 400)}],
+    'C19': [{'world': 'quilt', 'profile': 'C19', 'quick': (12000, 30), 'thorough': (1000000, 400)},
+            {'world': 'pool', 'profile': 'C19B', 'quick': (12000, 20), 'thorough': (1000000, 200)}],
     'C17': [{'world': 'store', 'profile': 'C17', 'quick': (20000, 45), 'thorough': (1500000, 600)}],
 }
 
